@@ -540,11 +540,10 @@ def check_tables(ctx, model):
 def run(ctx):
     ctx.gate(["Base", "Gen", "Num", "Expr", "C44"])
     build_own(ctx)
-    if os.environ.get("C44_DEV") != "1":
-        ctx.prove(PROOF_MODULES, [o for o in OBLIGATIONS if os.path.exists(os.path.join(vlib.COQ, o))])
-        missing = [o for o in OBLIGATIONS if not os.path.exists(os.path.join(vlib.COQ, o))]
-        if missing:
-            ctx.broken.append({"kind": "proof", "name": "missing obligation files", "detail": " ".join(missing)})
+    ctx.prove(PROOF_MODULES, [o for o in OBLIGATIONS if os.path.exists(os.path.join(vlib.COQ, o))])
+    missing = [o for o in OBLIGATIONS if not os.path.exists(os.path.join(vlib.COQ, o))]
+    if missing:
+        ctx.broken.append({"kind": "proof", "name": "missing obligation files", "detail": " ".join(missing)})
     drv = ctx.build_driver("c44_driver")
     model = ctx.build_model("C44", "C44/Extract.v", "c44_main.ml", "semodel", extra_ml=["expr_io.ml"])
     quick = ctx.tier == "quick"
@@ -576,6 +575,13 @@ def run(ctx):
                        "names, underscores, UTF-8 and XML/TeX special characters, Dummies) and histories of StringBox operations; "
                        "evaluations = printer texts (5 per expression) / box states compared byte for byte, plus table entries; "
                        "non-trivial = the expression is not an atom and at least one printer produced text; distinct = distinct dumps")
+    ctx.notes += [
+        "rendering defects outside the statement of C44 (text well formed, content wrong), transcribed by the model and "
+        "reproduced on the library: unicode(1/(x*y)) has a dangling product sign after the numerator 1 (recipe `(div (i 1) (mul x y))`); "
+        "unicode(y - x) prints `x - y` and unicode(-2*x + z) prints `-2*x - z` (the minus flag of an Add is consumed by the wrong term; "
+        "recipes `(sub y x)`, `(sub z (mul (i 2) x))`); add_right_sqbracket puts the extension piece U+23A5 on the last line and the corner "
+        "U+23A6 on the middle lines (recipe `(interval (q 1 2) (i 3) 0 0)`); latex(Interval) prints the end points with str(), e.g. `\\left[1/2, oo\\right)`",
+    ]
     ctx.assumptions += [
         "display width of a Unicode line = number of code points (every glyph one column); the theorems and the oracle use the same definition",
         "ostream << double with precision 15 is glibc's \"%.15g\" (model: exact decimal arithmetic, validated bit-for-bit by the tie)",
